@@ -31,6 +31,10 @@ CHECKS = {
    text="Seeded exploration of request histories against the four rate-limited UDP services through the real socket listener on the simulated kernel: bursts of 1-200 grammar-derived datagrams from 1-3 source IPs over several source ports with fake-clock gaps from 0 to 25 minutes (so buckets refill partially and fully). Invariant over the recorded history: in every window shorter than the limiter interval a source IP receives at most 4 response datagrams; metamorphic: a source's responses (count and times) are the same with and without the other sources' traffic.",
    ref="§3 C10", tech=TECH + "sliding-window invariant over the recorded response history on the fake clock + metamorphic source removal",
    note="x/time/rate reads the bubble's fake clock; responses are what the simulated kernel carried back (WriteToUDP)."),
+ "C09": dict(
+   text="Seeded exploration: hostile inputs to every director-less service (1-3 interleaved connections, grammar dialogues, mutations, raw bytes) ended by client close / reset / half-close / silence / a stalled peer, and histories of N<=200 sequential connections (incl. FTP passive sockets never connected to); afterwards the fake clock runs 10 simulated minutes. Checked: the server closed its side of every connection; the census of this run's goroutines with honeytrap frames (by creation site), the simulated kernel's listening sockets and the process's file descriptors equal the post-boot baseline; a handler that keeps spinning is caught by the driver's CPU watchdog.",
+   ref="§3 C09", tech=TECH + "resource-census oracle (goroutines by creation site, simulated listening sockets, fds) after a fake-clock drain; bounded-liveness of handlers once the peer is gone",
+   note="Goroutines are attributed to a run by synctest bubble id; retained heap is not asserted; CPU watchdog thresholds are in CPU seconds, far above legitimate steps."),
 }
 NA = {
  "C17": "pure functions of a byte buffer (decoder methods, ipp decode/encode): no schedule, clock, fault or interleaving to simulate (DESIGN §4)",
